@@ -97,7 +97,7 @@ func exploreProgram(c *harness.Ctx, p Prog, cfg explore.Config, r *harness.Rec, 
 // c01Mutants: every single-edit mutant that the real typechecker ACCEPTS is a program of the
 // property's antecedent too: it is executed (default schedule in the quick tier, delay <= 1 in the
 // thorough tier; three modes, no monitor) and must not raise a runtime error.
-func c01Mutants(c *harness.Ctx, idx int, r *harness.Rec) {
+func acceptedMutants(c *harness.Ctx, idx int, r *harness.Rec, progress bool) {
 	base, muts := getMutSpace(c).programsOfCase(idx)
 	explore.FuelOverride = 250000
 	defer func() { explore.FuelOverride = 0 }()
@@ -116,7 +116,11 @@ func c01Mutants(c *harness.Ctx, idx int, r *harness.Rec) {
 		}
 		r.Add("accepted_mutants_executed", 1)
 		p := Prog{Name: base.Name + " / " + m.Desc, Text: text}
-		for _, cfg := range []explore.Config{{Mode: 0}, {Mode: 1}, {Mode: 2}} {
+		modes := []explore.Config{{Mode: 0}, {Mode: 1}, {Mode: 2}}
+		if progress {
+			modes = modes[:2]
+		}
+		for _, cfg := range modes {
 			cfg := cfg
 			st := explore.NewStats()
 			first := true
@@ -130,14 +134,18 @@ func c01Mutants(c *harness.Ctx, idx int, r *harness.Rec) {
 					}
 				}
 				var problems []string
-				for _, pn := range ex.Res.Panics {
-					problems = append(problems, "panic: "+NormMsg(pn))
-				}
-				for _, n := range ex.Res.Notes {
-					problems = append(problems, "channel misuse: "+NormMsg(n))
-				}
-				if !ex.Returned && ex.Res.Err == "" {
-					problems = append(problems, "InitializeProcesses did not return")
+				if progress {
+					problems = progressProblems(ex, cfg)
+				} else {
+					for _, pn := range ex.Res.Panics {
+						problems = append(problems, "panic: "+NormMsg(pn))
+					}
+					for _, n := range ex.Res.Notes {
+						problems = append(problems, "channel misuse: "+NormMsg(n))
+					}
+					if !ex.Returned && ex.Res.Err == "" {
+						problems = append(problems, "InitializeProcesses did not return")
+					}
 				}
 				for _, pb := range problems {
 					if !confirm(p, cfg, ex.Res.Choices, ex.OutcomeKey(), 3) {
@@ -153,6 +161,43 @@ func c01Mutants(c *harness.Ctx, idx int, r *harness.Rec) {
 			r.Add("states", int64(len(st.States)))
 		}
 	}
+}
+
+func c02InScope(ex *explore.Exec) bool {
+	for _, ri := range ex.RootInfo {
+		for _, refd := range ri.NameRef {
+			if !refd && !ri.UnitType {
+				return false
+			}
+		}
+	}
+	return true
+}
+
+// progressProblems is C02's oracle on the quiescence snapshot of one execution.
+func progressProblems(ex *explore.Exec, cfg explore.Config) []string {
+	if !c02InScope(ex) || len(ex.Res.Panics) > 0 || ex.Res.Err != "" {
+		return nil
+	}
+	unref := map[string]bool{}
+	for _, ri := range ex.RootInfo {
+		for i, n := range ri.Names {
+			if !ri.NameRef[i] {
+				unref[n] = true
+			}
+		}
+	}
+	var bad []string
+	for _, l := range ex.LiveAtQuiescence() {
+		if cfg.Mode == 0 {
+			bad = append(bad, "alive at quiescence in async mode: "+l.Kind)
+		} else if l.Kind != "send" {
+			bad = append(bad, "alive at quiescence in sync mode, not blocked in a send: "+l.Kind)
+		} else if !unref[l.OnRoot] {
+			bad = append(bad, "blocked sending on a channel that is not an unconsumed top-level channel")
+		}
+	}
+	return bad
 }
 
 func fuelPanic(ex *explore.Exec) bool {
@@ -180,7 +225,7 @@ func init() {
 		Run: func(c *harness.Ctx, idx int, r *harness.Rec) {
 			progs := runtimeProgs(c)
 			if idx >= len(progs)*len(explore.AllConfigs) {
-				c01Mutants(c, idx-len(progs)*len(explore.AllConfigs), r)
+				acceptedMutants(c, idx-len(progs)*len(explore.AllConfigs), r, false)
 				return
 			}
 			p := progs[idx/len(explore.AllConfigs)]
@@ -223,10 +268,14 @@ func init() {
 	})
 
 	harness.Register(&harness.Check{
-		ID: "C02", Level: "model_checking", Rule: mcRule + "; oracle on the quiescence snapshot (live process tasks just before virtual time first advances)", Assumptions: mcAssumptions,
-		Cases: func(c *harness.Ctx) int { return len(runtimeProgs(c)) * 4 },
+		ID: "C02", Level: "model_checking", Rule: mcRule + "; oracle on the quiescence snapshot (live process tasks just before virtual time first advances); in addition every single-edit mutant of the corpus/example programs that the real typechecker ACCEPTS is executed in both polarized modes (default schedule quick, delay <= 1 thorough) under the same oracle", Assumptions: mcAssumptions,
+		Cases: func(c *harness.Ctx) int { return len(runtimeProgs(c))*4 + getMutSpace(c).total },
 		Run: func(c *harness.Ctx, idx int, r *harness.Rec) {
 			progs := runtimeProgs(c)
+			if idx >= len(progs)*4 {
+				acceptedMutants(c, idx-len(progs)*4, r, true)
+				return
+			}
 			p := progs[idx/4]
 			cfg := []explore.Config{{Mode: 0, Monitor: false}, {Mode: 1, Monitor: false}, {Mode: 0, Monitor: true}, {Mode: 1, Monitor: true}}[idx%4]
 			if cfg.Monitor && strings.HasPrefix(p.Name, "gen") {
@@ -234,34 +283,10 @@ func init() {
 			}
 			reported := map[string]bool{}
 			exploreProgram(c, p, cfg, r, func(ex *explore.Exec) bool {
-				inScope := true
-				unref := map[string]bool{}
-				for _, ri := range ex.RootInfo {
-					if !ri.Referenced {
-						if !ri.UnitType {
-							inScope = false
-						}
-						for _, n := range ri.Names {
-							unref[n] = true
-						}
-					}
-				}
-				if !inScope {
+				bad := progressProblems(ex, cfg)
+				if bad == nil && !c02InScope(ex) {
 					r.Note("out of scope: an unreferenced top-level process has a non-unit type (poised external interface)")
 					return false
-				}
-				if len(ex.Res.Panics) > 0 || ex.Res.Err != "" {
-					return true // C01's business
-				}
-				var bad []string
-				for _, l := range ex.LiveAtQuiescence() {
-					if cfg.Mode == 0 {
-						bad = append(bad, "alive at quiescence in async mode: "+l.Kind)
-					} else if l.Kind != "send" {
-						bad = append(bad, "alive at quiescence in sync mode, not blocked in a send: "+l.Kind)
-					} else if !unref[l.OnRoot] {
-						bad = append(bad, "blocked sending on a channel that is not an unconsumed top-level channel")
-					}
 				}
 				sort.Strings(bad)
 				for _, pb := range bad {
